@@ -16,7 +16,9 @@ use gsam::{
     hgen::{HeaderShape, expect_header, gen_header},
     io::{Container, read_bam_eager, read_bam_lazy, read_sam_eager, read_sam_lazy, std_gheader, std_header, write_bam, write_sam},
     model::{diff, diff_header, esc_full},
-    rawbam, samtext,
+    rawbam,
+    reuse::{self, Fmt},
+    samtext,
     spec::{expect_bam, expect_sam, norm_bam, norm_both, norm_sam},
 };
 use noodles_sam::{self as sam, alignment::RecordBuf};
@@ -193,6 +195,26 @@ fn record_body(ch: &Chooser, cfg: &Cfg) -> Outcome {
     if judged {
         if let Some((f, a, b)) = diff_lists(&models, &dec_s, norm_sam) {
             return v("sam-read", &f, "value-differs", a, b);
+        }
+    }
+
+    // the same text read into one reused, pre-dirtied RecordBuf: nothing of the buffer's earlier content
+    // or of the previous record may survive
+    match reuse::read_reused_dirty(Fmt::Sam, &t1) {
+        Err(e) => {
+            if judged {
+                return v("sam-read-reused", "record", "own-output-unreadable", "Ok".into(), format!("Err({e})"));
+            }
+        }
+        Ok(got) => {
+            if got.len() != dec_s.len() {
+                return v("sam-read-reused", "layout", "record-count", dec_s.len().to_string(), got.len().to_string());
+            }
+            for (f, r) in dec_s.iter().zip(&got) {
+                if let Some((fld, a, b)) = diff(f, r) {
+                    return v("sam-read-reused", &fld, "reused-buffer-differs-from-fresh", format!("fresh: {a}"), format!("reused: {b}"));
+                }
+            }
         }
     }
 
@@ -423,6 +445,40 @@ fn record_body(ch: &Chooser, cfg: &Cfg) -> Outcome {
 
 // ------------------------------------------------------------------------------------------------------------
 
+/// Ordered pairs and triples of records that differ in which optional fields are present, written as
+/// one SAM file (and as BAM, for SAM ≡ BAM through the same entry points) and read through every reader
+/// entry point (see `gsam::reuse`).
+fn reuse_body(ch: &Chooser, set: &[(&'static str, GRec)], header: &sam::Header) -> Outcome {
+    const POS: [&str; 3] = ["first", "second", "third"];
+    let fmt = *ch.pick_free("format", &[Fmt::Sam, Fmt::Bam(Container::Raw)]);
+    let len = *ch.pick_free("length", &[2usize, 3]);
+    let idx: Vec<usize> = (0..len).map(|i| ch.free(POS[i], set.len())).collect();
+    let seq: Vec<&GRec> = idx.iter().map(|&i| &set[i].1).collect();
+    let labels: Vec<&str> = idx.iter().map(|&i| set[i].0).collect();
+    let describe = || {
+        let recs: Vec<String> = seq.iter().map(|g| g.render()).collect();
+        format!("3 references; {fmt:?} file of records [{}]: {}", labels.join(", "), recs.join(" | "))
+    };
+    ch.desc(|| describe());
+    let f = match fmt {
+        Fmt::Sam => "sam",
+        Fmt::Bam(_) => "bam",
+    };
+    match reuse::check_sequence(fmt, header, &seq) {
+        Ok(n) => {
+            ch.obs_hash(n); // file length: an output, not the choice vector
+            ch.steps(len as u64 * 8);
+            Ok(())
+        }
+        Err(m) => Err(Violation::new(
+            format!("stage=reuse format={f} reader={} field={} symptom=record-differs-from-its-expectation", m.reader, m.field),
+            describe(),
+            format!("record {} ({}): {}", m.index, labels.get(m.index).copied().unwrap_or("?"), m.expected),
+            m.observed,
+        )),
+    }
+}
+
 fn header_body(ch: &Chooser, shape: &HeaderShape) -> Outcome {
     let m = gen_header(ch, shape);
     let with_record = *ch.pick("record", &[false, true]);
@@ -638,6 +694,12 @@ fn main() {
              standard/user tags, LN bounds, tag orders, line orders and invalid shapes, with/without a following record; \
              distinct = distinct decoded contents observed",
         );
+        ctx.rule(
+            "reuse: every ordered pair and triple over 20 records differing in which optional fields are present x {SAM, BAM}, \
+             each file read through 8 reader entry points (fresh, reused clean, reused dirty RecordBuf, record_bufs(), reused/fresh \
+             lazy record, records(), lazy->reused RecordBuf); every record-grammar execution also re-reads its text into one reused \
+             pre-dirtied RecordBuf",
+        );
         ctx.assume("Rust's str::parse::<f32>/<i64> (independent reading of the text noodles writes)");
         ctx.assume("RecordBuf setters/constructors store the given field values (checked per execution by viewing the built record)");
         let mk = |wide: bool, heavy: bool, nrec_free: bool| Cfg {
@@ -648,6 +710,12 @@ fn main() {
             nrec_free,
         };
         let _: Option<GHeader> = None;
+        // field-presence transitions between consecutive records, every reader entry point
+        {
+            let set = reuse::record_set();
+            let h3 = std_header(3);
+            ctx.harness(Config::new("sam_reuse_pairs_triples", 0), |ch| reuse_body(ch, &set, &h3));
+        }
         if ctx.quick() {
             let cfg = mk(false, false, false);
             ctx.harness(Config::new("sam_record_k2", 2), |ch| record_body(ch, &cfg));
